@@ -1,14 +1,127 @@
 /-
-  Driver.C17 — line protocol front end for property C17 (stub: not built yet).
+  Driver.C17 — line protocol for the Gaussian density and draws.  Every case is one `@` line:
+
+    @ prob <μ> <σ²> <x> f=<μ>,<σ²>,<x> via=probability|map
+        → pdf=ok ## p=<Fp value of the code-shaped density formula>
+      `<μ> <σ²> <x>` are `Fp` points (the model's formula against the code's formula); `f=` are
+      the floats at which the harness compares the implementation with the closed-form normal
+      density (relative tolerance) — the model answers what the specification demands.
+    @ draw <μ> <σ²> <k> <source>
+        → some n=<k> consumed=<c> samples=<…> | none consumed=<c>
+    @ mv <N> <k> mean=<…> cov=<…> src=<…> names=<samples>,<features> via=matrix|tensor [ty=rat]
+        → some shape=<s>:<k>,<f>:<N> consumed=<c> values=<…> | none consumed=<c> | panic(explicit)
+    @ new matrix <meanRows> <meanCols> <covRows> <covCols>     → ok | panic(explicit)
+    @ new tensor <meanLen> <covRows> <covCols>                 → ok | err(<variant>)
+
+  The answers of `draw` and `mv` are computed from the *specification* (`Spec/Gaussian.lean`) and
+  from the code-shaped model (`Model/Gaussian.lean`); the two must coincide (theorems of
+  `Props/C17.lean`), otherwise the line carries `MODEL-SPEC-DISAGREE`.
 -/
+import EasyMl.Model.Gaussian
+import EasyMl.Spec.Gaussian
 import Driver.Parse
+import Driver.C08
 
 namespace Driver.C17
+open EasyMl EasyMl.Decomp EasyMl.Gaussian Driver
 
 abbrev State := Unit
 
 def init : State := ()
 
-def step (s : State) (_toks : List String) : State × String := (s, "unimplemented")
+def parseFp (s : String) : Option Fp := s.toNat?.map Fp.ofNat
+
+def parseFps (s : String) : Option (List Fp) := (splitComma s).mapM parseFp
+
+def showFps (l : List Fp) : String :=
+  if l.isEmpty then "-" else ",".intercalate (l.map toString)
+
+def both (spec model : String) : String :=
+  if spec = model then spec else s!"{spec} ## MODEL-SPEC-DISAGREE {model}"
+
+def answerDraw (mean variance : Fp) (k : Nat) (source : List Fp) : String :=
+  let (r, rest) := draw mean variance source k
+  let model := match r with
+    | some samples =>
+      s!"some n={samples.length} consumed={source.length - rest.length} samples={showFps samples}"
+    | none => s!"none consumed={source.length - rest.length}"
+  let c := Spec.Gaussian.consumed source.length k
+  let spec := match Spec.Gaussian.drawSpec mean variance source k with
+    | some samples => s!"some n={k} consumed={c} samples={showFps samples}"
+    | none => s!"none consumed={c}"
+  both spec model
+
+section
+variable {α : Type} [Add α] [Sub α] [Mul α] [Div α] [Neg α] [Zero α] [One α] [RealFns α] [NumOrd α]
+
+def showVals (sh : α → String) (l : List α) : String :=
+  if l.isEmpty then "-" else ",".intercalate (l.map sh)
+
+/-- one multivariate draw at the element type `α` (`Fp`, or `Rat` for the singular covariances
+    that must be rejected before any transcendental function is needed) -/
+def answerMv (sh : α → String) (n k : Nat) (mean cov source : List α) (names : List String) : String :=
+  let covariance : Matrix α := ⟨cov, n, n⟩
+  let sameNames := names.getD 0 "" == names.getD 1 ""
+  let shape := s!"{names.getD 0 ""}:{k},{names.getD 1 ""}:{n}"
+  let (r, rest) := mvDrawTensor mean covariance source k (names.getD 0 "") (names.getD 1 "")
+  let used := source.length - rest.length
+  let model := match r with
+    | .panic kind => s!"panic({kind})"
+    | .ok none => s!"none consumed={used}"
+    | .ok (some m) =>
+      s!"some shape={names.getD 0 ""}:{m.rows},{names.getD 1 ""}:{m.columns} consumed={used} " ++
+      s!"values={showVals sh m.data}"
+  let c := Spec.Gaussian.mvConsumed mean covariance source.length k sameNames
+  let spec :=
+    -- a tensor cannot have a dimension of length zero: a request for zero samples of a valid
+    -- distribution is rejected with a panic (documented tensor invariant)
+    if k = 0 ∧ !sameNames ∧ (cholesky covariance).isSome then "panic(explicit)"
+    else match Spec.Gaussian.mvSpec mean covariance source k sameNames with
+      | some m => s!"some shape={shape} consumed={c} values={showVals sh m.data}"
+      | none => s!"none consumed={c}"
+  both spec model
+
+end
+
+def step (s : State) (toks : List String) : State × String :=
+  match toks with
+  | "@" :: "prob" :: muS :: varS :: xS :: _ =>
+    match parseFp muS, parseFp varS, parseFp xS with
+    | some mu, some var, some x => (s, s!"pdf=ok ## p={probability mu var x}")
+    | _, _, _ => (s, "bad-op")
+  | "@" :: "draw" :: muS :: varS :: kS :: srcS :: _ =>
+    match parseFp muS, parseFp varS, kS.toNat?, parseFps srcS with
+    | some mu, some var, some k, some src => (s, answerDraw mu var k src)
+    | _, _, _, _ => (s, "bad-op")
+  | "@" :: "mv" :: nS :: kS :: rest =>
+    let names := parseNames ((optArg "names" rest).getD "samples,features")
+    if optArg "ty" rest = some "rat" then
+      let rats := fun (key : String) => (optArg key rest).bind fun t => (splitComma t).mapM Driver.C08.parseRat
+      match nS.toNat?, kS.toNat?, rats "mean", rats "cov", rats "src" with
+      | some n, some k, some mean, some cov, some src =>
+        if mean.length ≠ n ∨ cov.length ≠ n * n then (s, "bad-op")
+        else (s, answerMv showRat n k mean cov src names)
+      | _, _, _, _, _ => (s, "bad-op")
+    else
+      match nS.toNat?, kS.toNat?, (optArg "mean" rest).bind parseFps, (optArg "cov" rest).bind parseFps,
+          (optArg "src" rest).bind parseFps with
+      | some n, some k, some mean, some cov, some src =>
+        if mean.length ≠ n ∨ cov.length ≠ n * n then (s, "bad-op")
+        else (s, answerMv toString n k mean cov src names)
+      | _, _, _, _, _ => (s, "bad-op")
+  | ["@", "new", "matrix", a, b, c, d] =>
+    match a.toNat?, b.toNat?, c.toNat?, d.toNat? with
+    | some mr, some mc, some cr, some cc =>
+      (s, match mvNewMatrix mr mc cr cc with | .ok _ => "ok" | .panic k => s!"panic({k})")
+    | _, _, _, _ => (s, "bad-op")
+  | ["@", "new", "tensor", a, c, d] =>
+    match a.toNat?, c.toNat?, d.toNat? with
+    | some ml, some cr, some cc =>
+      (s, match mvNewTensor ml cr cc with
+        | .ok _ => "ok"
+        | .error .notCovarianceMatrix => "err(NotCovarianceMatrix)"
+        | .error .meanVectorWrongLength => "err(MeanVectorWrongLength)")
+    | _, _, _ => (s, "bad-op")
+  | _ => (s, "bad-op")
 
 end Driver.C17
